@@ -27,7 +27,7 @@ STUBS = [
     'static routes serve harness/static_fixture (one 5-byte file)',
 ]
 OUTSIDE = ['custom routers', 'resources with non-standard method maps', 'paths outside the menu except the symbolic sink tails']
-BUDGET = {'quick': 300, 'thorough': 1800}
+BUDGET = {'quick': 300, 'thorough': 900}
 
 FIXTURE = os.path.join(os.path.dirname(os.path.abspath(__file__)), 'static_fixture')
 ALL_METHODS = ['GET', 'POST', 'DELETE', 'PUT', 'PATCH', 'HEAD', 'OPTIONS', 'CONNECT', 'TRACE', 'CHECKIN', 'REPORT', 'BREW', 'WEBSOCKET']
